@@ -62,6 +62,9 @@ type Run struct {
 	Obs      []Obligation
 	Stats    map[string]int
 	curRule  string
+	// ruleAlias, when set, renames the obligations of a rule function that is shared between
+	// two properties (e.g. the control-message layout tables serve C08 and C03).
+	ruleAlias string
 	known    []KnownFinding
 	Explain  []string
 	NotDec   []string
